@@ -70,7 +70,11 @@ def _slots_finder(clazz, fields_set):
     """
     # ... class level
     try:
-        fields_set.update(clazz.__slots__)
+        for name in clazz.__slots__:
+            if name.startswith("__") and not name.endswith("__"):
+                # Private slot: the attribute name is mangled
+                name = "_{0}{1}".format(clazz.__name__.lstrip("_"), name)
+            fields_set.add(name)
     except AttributeError:
         pass
 
